@@ -261,6 +261,9 @@ class Interp:
                 return FALSE
             if t and not f:
                 return TRUE
+            if not t and not f:
+                st.bottom = True
+                return Val("raised")
             return self.opaque(node, st)
         if isinstance(node, (ast.List, ast.Set, ast.Dict)):
             return Val("lit", node)
@@ -273,6 +276,22 @@ class Interp:
 
     def ev_subscript(self, node, st):
         base = node.value
+        if isinstance(base, ast.Dict) and all(isinstance(k, ast.Constant) for k in base.keys):
+            idx = self.ev(node.slice, st)
+            vals = [self.ev(v, st) for v in base.values]
+            keys = [k.value for k in base.keys]
+            if isinstance(idx, Lin) and st.reduce(idx).is_const():
+                c = st.reduce(idx).c
+                if c in keys:
+                    return vals[keys.index(c)]
+                if self.record:
+                    self.outcomes.append(Outcome("raise", "KeyError", st.copy(), node))
+                st.bottom = True
+                return Val("raised")
+            r = self.opaque(node, st)
+            if vals and all(isinstance(v, Tok) for v in vals):
+                st.enum_meet(pure_sym(r), "in", [v.v for v in vals])
+            return r
         bs = self.sym_of(base)
         if bs in self.containers:
             sl = node.slice
@@ -535,6 +554,11 @@ class Interp:
         if op in (ast.In, ast.NotIn):
             coll = t.comparators[0]
             sa = pure_sym(a)
+            if isinstance(coll, ast.Name) and coll.id in ENUM_CLASSES:
+                if isinstance(a, Tok) and a.v.startswith(coll.id + "."):
+                    if op is ast.NotIn:
+                        st.bottom = True
+                return
             if isinstance(coll, (ast.Set, ast.List, ast.Tuple)) and (sa or isinstance(a, Tok)):
                 toks = []
                 for e in coll.elts:
@@ -552,6 +576,12 @@ class Interp:
         if isinstance(a, Tok) and isinstance(b, Tok):
             if (a == b) != (op is ast.Eq) and op in (ast.Eq, ast.NotEq):
                 st.bottom = True
+            return
+        if (isinstance(a, Tok) or isinstance(b, Tok)) and op in (ast.Lt, ast.LtE, ast.Gt, ast.GtE):
+            # ordering comparison of None / an enum member with a number raises TypeError
+            if self.record:
+                self.outcomes.append(Outcome("raise", "TypeError", st.copy(), t))
+            st.bottom = True
             return
         if isinstance(a, Tok) or isinstance(b, Tok):
             tok, other = (a, b) if isinstance(a, Tok) else (b, a)
